@@ -42,6 +42,7 @@ func (p *Program) newTopFrame(ex *Exec, fn *ssa.Function, ct *Contract) (*Frame,
 			ex.refFact(st, r)
 			ex.assume(st, sx("<=", "0", r))
 			v = Term{S: r, T: prm.Type()}
+			ex.addPointeeModel(fr, st, name, r, prm.Type())
 		case *types.Signature:
 			v = Term{S: ex.vc.fresh("p_"+name, "Int"), T: prm.Type()}
 		default:
